@@ -25,33 +25,33 @@ type Clause struct {
 }
 
 type FuncContract struct {
-	Name      string // as written
-	PkgPath   string // package of the contract file ("" for spec files: full names)
-	Props     []string
-	Trusted   bool // contract assumed, body not verified
-	Inline    bool // calls are inlined (body translated at call site)
-	Pure      bool // no modelled heap effect; result is a function of arguments and heap read
-	MayPanic  bool
-	NoSafety  bool // implicit safety obligations are not generated (stated in evidence)
-	Requires  []Clause
-	Ensures   []Clause
-	Assumes   []Clause
+	Name         string // as written
+	PkgPath      string // package of the contract file ("" for spec files: full names)
+	Props        []string
+	Trusted      bool // contract assumed, body not verified
+	Inline       bool // calls are inlined (body translated at call site)
+	Pure         bool // no modelled heap effect; result is a function of arguments and heap read
+	MayPanic     bool
+	NoSafety     bool // implicit safety obligations are not generated (stated in evidence)
+	Requires     []Clause
+	Ensures      []Clause
+	Assumes      []Clause
 	EnsuresGhost []Clause
-	Modifies  []*SX
-	ModAll    bool
-	LoopInv   map[int][]Clause
-	LoopDec   map[int]*Clause
-	LoopMod   map[int][]*SX // extra havoc targets inside loop K
-	AtCall    map[string][]Clause // callee short name -> assertions checked at every call to it
-	Protocols []ProtoUse
-	AtAtomic  map[int][]GhostUpd // ordinal of the atomic operation on a protected field -> ghost updates
-	File      string
-	Line      int
-	Used      bool
-	Functype  bool // contract for a function type / interface method
-	InputPath bool
-	IntMode   bool
-	Swept     bool // created by a sweep directive (safety obligations only)
+	Modifies     []*SX
+	ModAll       bool
+	LoopInv      map[int][]Clause
+	LoopDec      map[int]*Clause
+	LoopMod      map[int][]*SX       // extra havoc targets inside loop K
+	AtCall       map[string][]Clause // callee short name -> assertions checked at every call to it
+	Protocols    []ProtoUse
+	AtAtomic     map[int][]GhostUpd // ordinal of the atomic operation on a protected field -> ghost updates
+	File         string
+	Line         int
+	Used         bool
+	Functype     bool // contract for a function type / interface method
+	InputPath    bool
+	IntMode      bool
+	Swept        bool // created by a sweep directive (safety obligations only)
 }
 
 type SpecFunc struct {
@@ -111,13 +111,13 @@ type GhostUpd struct {
 }
 
 type Sweep struct {
-	PkgPath string
-	Glob    string
-	Props   []string
-	IntMode bool
-	File    string
-	Line    int
-	Except  []string
+	PkgPath  string
+	Glob     string
+	Props    []string
+	IntMode  bool
+	File     string
+	Line     int
+	Except   []string
 	Requires []Clause
 }
 
